@@ -104,11 +104,11 @@ inductive Res (α : Type) where
 
 def insertV9Templates (st : PState) : List V9Template → PState
   | [] => st
-  | t :: ts => insertV9Templates { st with v9T := amInsert t.id t st.v9T } ts
+  | t :: ts => insertV9Templates { st with v9T := amInsert t.id t st.v9T, v9O := amErase t.id st.v9O } ts
 
 def insertV9OptTemplates (st : PState) : List V9OptTemplate → PState
   | [] => st
-  | t :: ts => insertV9OptTemplates { st with v9O := amInsert t.id t st.v9O } ts
+  | t :: ts => insertV9OptTemplates { st with v9O := amInsert t.id t st.v9O, v9T := amErase t.id st.v9T } ts
 
 /-- `FlowSetBody::parse` on the `length - 4` bytes of the flowset -/
 def v9ParseBody (c : Config) (st : PState) (id : Nat) (body : Bytes) : PState × Res V9Body :=
@@ -135,7 +135,7 @@ def v9ParseBody (c : Config) (st : PState) (id : Nat) (body : Bytes) : PState ×
       match amLookup id st.v9T with
       | some t =>
         let total := v9TotalSize t.fields
-        if total = 0 then (st, .panic)
+        if total = 0 then (st, .err)          -- `ErrorKind::Verify` (was: division-by-zero panic, fixed)
         else
           let (recs, pad) := v9RecLoop c t.fields (body.length / total) body []
           (st, .ok (.data recs pad))
